@@ -54,7 +54,8 @@ the elements it yields, then normal exhaustion or an exception - the `LSeq` read
 Out of the modelled domain (`Err.outOfDomain`, no prediction, the harness skips and counts):
 reading a variable that holds a one-shot iterator (its second consumer would find it empty),
 a lazy sequence that will raise / an `OrderingIterable` / a context object stored *inside* data,
-operators applied to lazy sequences, floats / sets / host objects, keyword arguments of builtins.
+operators applied to lazy sequences, sets / host objects, `-` `*` unary `-` and the order comparisons on
+floats (floats otherwise pass through as values: `=`, `+`, sort keys, dict keys), keyword arguments of builtins.
 
 `eval fuel` is structurally recursive on `fuel` through the non-recursive `step`; running out of
 fuel is the error `Err.fuel`, which is never captured into a lazy sequence, so more fuel never
@@ -674,8 +675,9 @@ def callMethod (ev : Ev) (C : Ctx) (bad : Err) (r : Obj) (f : Fn) (args : List E
       if strs.length != ns.length then .error bad
       else
         let n := strs.length
-        -- `islice(sequence, len(args) + 1)` reaches the end of a source that raises
-        match (if xs.length < n + 1 then e else none) with
+        -- `islice(sequence, len(args) + 1)` reaches the end of a source that raises; without names
+        -- `chain(lst, sequence)` consumes the whole source
+        match (if n = 0 || xs.length < n + 1 then e else none) with
         | some er => .error er
         | none =>
         if n = 0 then pure (.ctx ({ vars := bindNamed [] (bindPos 1 xs) } :: C))
